@@ -2,7 +2,32 @@
 from .extract import table
 
 
+def _ext_modules():
+    """harness/specs_*.py: further translated functions, one module per work package (each defines SPECS() -> {prop: [spec, …]}
+    and GENS() -> {lean name: rng -> argument list}); merged into _specs() / _gens() below"""
+    import importlib
+    import os
+    d = os.path.dirname(os.path.abspath(__file__))
+    return [importlib.import_module("." + f[:-3], __package__) for f in sorted(os.listdir(d))
+            if f.startswith("specs_") and f.endswith(".py")]
+
+
 def _specs():
+    base = _specs_base()
+    for m in _ext_modules():
+        for prop, lst in m.SPECS().items():
+            base.setdefault(prop, []).extend(lst)
+    return base
+
+
+def _gens():
+    base = _gens_base()
+    for m in _ext_modules():
+        base.update(m.GENS())
+    return base
+
+
+def _specs_base():
     from . import translate as tr
     from orquestra.quantum.circuits import _itertools, _unitary_tools
     from orquestra.quantum import utils, wavefunction
@@ -36,7 +61,7 @@ def _specs():
     }
 
 
-def _gens():
+def _gens_base():
     """input generators (rng -> argument list) for the translated functions, inside each function's documented domain;
     used by harness/translated_check.py to compare the TRANSLATED Lean definition with the Python function itself"""
     def bits(r, lo=0, hi=9):
@@ -140,7 +165,19 @@ def _translated(prop):
     return "\n".join(out) + "\n"
 
 
-for _p in ("C01", "C04", "C09", "C10", "C12", "C13", "C15"):
+def _translated_props():
+    import os
+    d = os.path.dirname(os.path.abspath(__file__))
+    extra = set()
+    for f in os.listdir(d):
+        if f.startswith("specs_") and f.endswith(".py"):
+            for line in open(os.path.join(d, f)):
+                if line.startswith("PROPS ="):
+                    extra |= set(eval(line.split("=", 1)[1]))
+    return sorted({"C01", "C04", "C09", "C10", "C12", "C13", "C15"} | extra)
+
+
+for _p in _translated_props():
     table(f"Translated{_p}.lean")(lambda _p=_p: _translated(_p))
 
 
